@@ -52,7 +52,34 @@ def removal_pairing(ctx, tag, side):
                     some = dict((v, x) for v, x in b['term']['targets']).get(vals[0] if vals else 1)
                     if some is not None:
                         hit = some
-        return hit is not None and bool(tms) and cfg.all_paths_pass(g, hit, cfg.exits(g), set(tms))
+        if hit is not None and bool(tms) and cfg.all_paths_pass(g, hit, cfg.exits(g), set(tms)):
+            return True
+        # the hit edge may be a closure handed to Option::map / and_then / map_or on the removal's result (it runs exactly when an entry was removed):
+        # then the timer removal must be on every path of that closure, keyed by the removed entry
+        for b2, t2 in g.calls():
+            if not callee_is(t2, 'Option::map', 'Option::and_then', 'Option::map_or', 'Option::map_or_else', 'Option::is_some_and', 'Option::inspect'):
+                continue
+            if not result_of(P, P.operand(g, t2['args'][0], at=b2), me):
+                continue
+            for a_ in t2['args'][1:]:
+                for cr, _ in P.root(P.operand(g, a_, at=b2)):
+                    cu = P.unbound(cr)
+                    if cu[0] != 'agg' or P._agg_rv(cu).get('adt') != 'closure':
+                        continue
+                    body = F.fns.get(P._agg_rv(cu).get('adt_id'))
+                    if body is None:
+                        continue
+                    tm2 = []
+                    for b3, t3 in body.calls():
+                        if callee_is(t3, 'DelayQueue::remove', 'DelayQueue::try_remove'):
+                            rr = P.root(P.operand(body, t3['args'][1], at=b3))
+                            if rr and all(is_me(r) and key_field in P.fpath(p) for r, p in rr):
+                                tm2.append(b3)
+                        if callee_is(t3, 'DelayQueue::clear'):
+                            tm2.append(b3)
+                    if tm2 and cfg.all_paths_pass(body, 0, cfg.exits(body), set(tm2)):
+                        return True
+        return False
 
     def discharged(m, g, bb, is_me, depth=3):
         """paired in g itself, or g belongs to a private helper of the table that hands the removed entry to its callers and every call site (within
@@ -226,7 +253,7 @@ def run(ctx):
     for g in reachable_local_fns(F, pn):
         for bb, t in g.calls():
             if F.callee_fn(t) is S.plain:
-                kr = P.root(P.operand(g, t['args'][kp - 1], at=bb))
+                kr = P.root(P.operand(g, t['args'][kp - 1], at=bb), through_params=True, callers={x.id for x in reachable_local_fns(F, pn)})   # also through a private helper of the channel
                 if kr and all(P.is_call(r, 'CanceledRequests::poll_recv', 'UnboundedReceiver::poll_recv', 'poll_next_unpin') and ('v', 'Some') in p for r, p in kr):
                     fw.append((g, t))
     R.ob('C11.guard', ('<BaseChannel as Stream>::poll_next', 'abandoned requests are untracked'), len(fw) == 1,
